@@ -572,13 +572,59 @@ theorem fact_signjws_sequence :
       "return-error \"refusing to sign JWS with private key in JWK header\"",
       "if err != nil", "if detachedPayload", "jws.Sign()", "jws.Sign()", "if err != nil"] := by decide
 
+/-- **signjwt_no_private_jwk.** The same guarantee for package-level `SignJWT` (guard added by a `fix:` commit; before it
+    a caller-supplied private JWK header went into the token): a `jwk` header in the signed protected header is never
+    assignable to crypto.Signer. -/
+theorem signjwt_no_private_jwk (h out : Headers) (hok : signJWTHeaders h = .ok out) :
+    ∀ rt id, hget out "jwk" = some (.jwk rt id) → assignableToSigner rt = false := by
+  intro rt id hv
+  -- the `jwk` entry of the output is the `jwk` entry of the input (alg removed, typ possibly added)
+  have key : ∀ o : Headers, (o = alDel h "alg" ∨ o = hput (alDel h "alg") "typ" (.str "JWT")) →
+      hget o "jwk" = hget h "jwk" := by
+    intro o ho
+    rcases ho with rfl | rfl
+    · unfold hget; simp [alGet_del]
+    · unfold hget hput; simp [alGet_put, alGet_del]
+  unfold signJWTHeaders at hok
+  split at hok
+  · cases hok
+  · split at hok
+    · rename_i rt' id' hj
+      split at hok
+      · cases hok
+      · rename_i hns
+        have ho : out = alDel h "alg" ∨ out = hput (alDel h "alg") "typ" (.str "JWT") := by
+          cases hok; split <;> simp
+        rw [key out ho, hj] at hv
+        cases hv
+        simpa using hns
+    · rename_i hnj
+      have ho : out = alDel h "alg" ∨ out = hput (alDel h "alg") "typ" (.str "JWT") := by
+        cases hok; split <;> simp
+      rw [key out ho] at hv
+      exact absurd hv (hnj rt id)
+
+/-- SignJWT in the source has the guard before `jwt.Sign` -/
+theorem fact_signjwt_guard :
+    C03.signJWTSeq = ["convertHeaders", "hdr.JWK", "jwkHeader.Raw(&jwkAsPrivateKey):crypto.Signer",
+      "return-error \"refusing to sign JWT with private key in JWK header\"", "jwt.Sign"] := by decide
+
+/-- **the audit record of a signing request does not depend on the `jwk` header** (nor on any header but `kid`): the
+    record is worded from `kid`, `iss`, `sub`; the real records (message AND field names) are compared with this in the
+    correspondence for every generated header map, including private JWKs of every key type in a `jwk` header. -/
+theorem sign_audit_ignores_jwk_header (jwt : Bool) (iss sub : String) (h : Headers) (v : HVal) :
+    signAudit jwt iss sub (hput h "jwk" v) = signAudit jwt iss sub h := by
+  unfold signAudit kidText hget hput
+  simp [alGet_put]
+
 /-- KNOWN LIMIT of the mechanism (not of the property as stated, which is about keys created or held by the node —
     those are all `crypto.Signer`s): the rule is typed on `crypto.Signer`, so a caller-made X25519 private JWK or a
-    symmetric `oct` JWK passes; and `SignJWT` has no such rule at all. -/
+    symmetric `oct` JWK passes, in SignJWS and SignJWT alike. -/
 theorem signjws_rule_is_signer_typed :
     signJWSHeaders [("jwk", .jwk "x25519.PrivateKey" "x")] = .ok [("jwk", .jwk "x25519.PrivateKey" "x")] ∧
     signJWSHeaders [("jwk", .jwk "[]uint8" "oct")] = .ok [("jwk", .jwk "[]uint8" "oct")] ∧
-    (signJWTHeaders [("jwk", .jwk "*ecdsa.PrivateKey" "p")]).map (hget · "jwk") = .ok (some (.jwk "*ecdsa.PrivateKey" "p")) := by
+    (signJWTHeaders [("jwk", .jwk "x25519.PrivateKey" "p")]).map (hget · "jwk") = .ok (some (.jwk "x25519.PrivateKey" "p")) ∧
+    signJWTHeaders [("jwk", .jwk "*ecdsa.PrivateKey" "p")] = .error .privateJwk := by
   decide +kernel
 
 def view (r : Except JErr Headers) : Except JErr (Option HVal × Option HVal × Option HVal) :=
